@@ -124,6 +124,20 @@ impl RuleConfiguration for RemoveIfExpression {
     }
 }
 
+#[cfg(feature = "verif")]
+pub(crate) fn verif_convert_if_branch(
+    condition: Expression,
+    result: Expression,
+    else_result: Expression,
+) -> Expression {
+    Processor::default().convert_if_branch(condition, result, else_result)
+}
+
+#[cfg(feature = "verif")]
+pub(crate) fn verif_process_expression(expression: &mut Expression) {
+    Processor::default().process_expression(expression)
+}
+
 #[cfg(test)]
 mod test {
     use super::*;
